@@ -93,8 +93,11 @@ template <class T> static void inplace (Gen<T>& g, int it)
 {
     const char* t = tg<T> ();
     int mode = it % 3;
+    std::string trv;       // translation() of the result, for the records that set it (the current matrices here are NOT affine)
     auto rec = [&] (const char* op, int n, const std::string& m0, const std::string& args, const std::string& setm, const std::string& m1) {
-        Rec r ("inplace"); r.str ("op", op); r.str ("t", t); r.num ("n", n); r.num ("prog", -1); r.num ("step", 0); r.raw ("m0", m0); r.raw ("args", args); r.raw ("set", setm); r.raw ("m1", m1); r.emit ();
+        Rec r ("inplace"); r.str ("op", op); r.str ("t", t); r.num ("n", n); r.num ("prog", -1); r.num ("step", 0); r.raw ("m0", m0); r.raw ("args", args); r.raw ("set", setm); r.raw ("m1", m1);
+        if (!trv.empty ()) { r.raw ("tr", trv); trv.clear (); }
+        r.emit ();
     };
     Vec3<T> v3 (g.pick (mode), g.pick (mode), g.pick (mode));
     Vec2<T> v2 (g.pick (mode), g.pick (mode));
@@ -105,15 +108,15 @@ template <class T> static void inplace (Gen<T>& g, int it)
     Matrix44<T> M = rnd44<T> (g, mode), S, R;
     Matrix33<T> N = rnd33<T> (g, mode), S3, R3;
     Matrix22<T> Q = rnd22<T> (g, mode), S2, R2;
-    { R = M; R.translate (v3); S.setTranslation (v3); rec ("translate", 4, jv (M), jv (v3), jv (S), jv (R)); }
-    { R = M; R.scale (v3); S.setScale (v3); rec ("scale", 4, jv (M), jv (v3), jv (S), jv (R)); }
+    { R = M; R.translate (v3); S.setTranslation (v3); trv = jv (R.translation ()); rec ("translate", 4, jv (M), jv (v3), jv (S), jv (R)); }
+    { R = M; R.scale (v3); S.setScale (v3); trv = jv (R.translation ()); rec ("scale", 4, jv (M), jv (v3), jv (S), jv (R)); }
     { R = M; R.shear (v3); S.setShear (v3); rec ("shear3", 4, jv (M), jv (v3), jv (S), jv (R)); }
     { R = M; R.shear (h6); S.setShear (h6); rec ("shear6", 4, jv (M), js (h6), jv (S), jv (R)); }
     { R = M; R.rotate (r3); S.setEulerAngles (r3); rec ("rotate", 4, jv (M), jv (r3), jv (S), jv (R)); }
-    { R3 = N; R3.translate (v2); S3.setTranslation (v2); rec ("translate", 3, jv (N), jv (v2), jv (S3), jv (R3)); }
+    { R3 = N; R3.translate (v2); S3.setTranslation (v2); trv = jv (R3.translation ()); rec ("translate", 3, jv (N), jv (v2), jv (S3), jv (R3)); }
     { R3 = N; R3.scale (v2); S3.setScale (v2); rec ("scale", 3, jv (N), jv (v2), jv (S3), jv (R3)); }
     { R3 = N; R3.shear (s1); S3.setShear (s1); rec ("shear1", 3, jv (N), jv (s1), jv (S3), jv (R3)); }
-    { R3 = N; R3.shear (v2); S3.setShear (v2); rec ("shear2", 3, jv (N), jv (v2), jv (S3), jv (R3)); }
+    { R3 = N; R3.shear (v2); S3.setShear (v2); trv = jv (R3.translation ()); rec ("shear2", 3, jv (N), jv (v2), jv (S3), jv (R3)); }
     { R3 = N; R3.rotate (a); S3.setRotation (a); rec ("rotate-right", 3, jv (N), jv (a), jv (S3), jv (R3)); }
     { R2 = Q; R2.rotate (a); S2.setRotation (a); rec ("rotate-right", 2, jv (Q), jv (a), jv (S2), jv (R2)); }
 }
@@ -160,6 +163,11 @@ template <class T> static void frames (Gen<T>& g, int it)
         rec ("computeLocalFrame", "[" + jv (c) + "," + jv (a) + "," + jv (b) + "]", jv (computeLocalFrame (c, a, b)));
         // a polyline p0 p1 p2 p3: first, next, next, last
         Vec3<T> p0 = v (), p1 = p0 + a, p2 = p1 + b, p3 = p2 + c;
+        if (it % 9 == 4)
+        {   // the same polyline in very small units (the frame's axes do not depend on the scale of the model)
+            T k = (T) std::ldexp (1.0, sizeof (T) == 4 ? -16 : -32);
+            p0 *= k; p1 *= k; p2 *= k; p3 *= k;
+        }
         if (it % 4 == 1) p2 = p1 + a;            // straight segment
         if (it % 4 == 2) p2 = p1 - a * (T) 0.5 + b * (T) 0.125;   // sharp turn (more than 90 degrees)
         Matrix44<T> f0 = firstFrame (p0, p1, p2);
